@@ -106,7 +106,7 @@ var allKinds = []string{
 	"panic", "panic-multiline", "if-cond", "elseif-cond", "for-init", "for-cond", "for-post", "range-expr",
 	"switch-tag", "switch-case", "typeswitch", "after-rawstring", "rawstring-inside", "after-comment", "comment-inside",
 	"incdec", "defer-arg", "go-arg", "labeled-loop", "nested-block", "closure-call", "in-defer-closure", "assign-struct-field",
-	"after-funclit", "after-funclit-inline",
+	"after-funclit", "after-funclit-inline", "elseif3-funclit", "switch-case3-funclit", "after-empty-funclit",
 }
 var blockingKinds = []string{"send", "recv-expr", "select-send", "if-cond-flat", "for-cond-flat", "switch-case-flat", "elseif-cond-flat", "after-block", "elseif3-cond-blk", "switch-case3-blk", "after-funclit-blk"}
 var nonASCIIKinds = []string{"nonascii-field", "nonascii-field2", "nonascii-method-call"}
@@ -214,6 +214,26 @@ func (g *gen) emitKind(s *srcB, kind, ind string) {
 	case "after-funclit-blk":
 		s.L(ind + "ch <- 3")
 		g.site(kind, s.L(ind+"s += apply(func() int {\n"+ind+"\treturn 1\n"+ind+"}, <-ch) + "+e))
+	case "after-empty-funclit":
+		g.site(kind, s.L(ind+"s += apply(func() int { return 0 }, 0) + len([]func(){func() {}}) + "+e))
+	case "elseif3-funclit":
+		// code after a function literal inside the condition of a later clause
+		head := s.L(ind + "if s == -77 {")
+		s.L(ind + "\ts++")
+		s.L(ind + "} else if s == -78 {")
+		s.L(ind + "\ts += 2")
+		g.site(kind, s.L(ind+"} else if apply(func() int {\n"+ind+"\treturn 1\n"+ind+"}, "+e+") == -5 {"), head)
+		s.L(ind + "\ts += 3")
+		s.L(ind + "}")
+	case "switch-case3-funclit":
+		head := s.L(ind + "switch {")
+		s.L(ind + "case s == -99:")
+		s.L(ind + "\ts++")
+		s.L(ind + "case s == -98:")
+		s.L(ind + "\ts += 2")
+		g.site(kind, s.L(ind+"case apply(func() int { return 1 }, "+e+") == -5:"), head)
+		s.L(ind + "\ts += 3")
+		s.L(ind + "}")
 	case "elseif3-cond-blk":
 		// the condition of a later else-if suspends: its code belongs to that clause
 		s.L(ind + "ch <- 7")
